@@ -320,6 +320,45 @@ def runEvs : RS → List Ev → Option RS
     | none => none
     | some rs' => runEvs rs' es
 
+/-! #### the `Recorder` on the real representation: `path: BString`, components joined by `/` -/
+
+/-- `Recorder::pop_element`: `if let Some(pos) = path.rfind_byte(b'/') { path.resize(pos, 0) } else { path.clear() }` -/
+def popElem (b : Bytes) : Bytes :=
+  match b.reverse.dropWhile (fun x => x != 47) with
+  | [] => []
+  | _ :: r => r.reverse
+
+/-- the `Recorder` with its `BString`s (`push_element` is `C04.pushPath`: a `/` unless empty, then the name) -/
+structure RSB where
+  path : Bytes
+  deque : List Bytes
+  recs : List (RawChange × Bytes)
+  deriving Repr, DecidableEq
+
+def recStepB (rs : RSB) : Ev → Option RSB
+  | .popFront =>
+    match rs.deque with
+    | p :: d => some { rs with path := p, deque := d }
+    | [] => none
+  | .pushBack n =>
+    some { rs with path := C04.pushPath rs.path n, deque := rs.deque ++ [C04.pushPath rs.path n] }
+  | .push n => some { rs with path := C04.pushPath rs.path n }
+  | .pop => some { rs with path := popElem rs.path }
+  | .visit c => some { rs with recs := rs.recs ++ [(c, rs.path)] }
+
+def runEvsB : RSB → List Ev → Option RSB
+  | rs, [] => some rs
+  | rs, e :: es =>
+    match recStepB rs e with
+    | none => none
+    | some rs' => runEvsB rs' es
+
+/-- a record of the model as the real `recorder::Change`: the path-less change and the path bytes -/
+def Change.toB : Change → RawChange × Bytes
+  | .add p m o r => (.add m o r, C04.joinPath p)
+  | .del p m o r => (.del m o r, C04.joinPath p)
+  | .mod p pm po m o => (.mod pm po m o, C04.joinPath p)
+
 /-! ### driver -/
 
 def relStr : Rel → String
